@@ -855,7 +855,16 @@ func (x *c14Exec) execWrite(op string, m wire.Message, pver uint32, net wire.Bit
 			return "ok " + c14Hex(frame)
 		})
 	})
-	if x.checkCrash(op, cmd, r) || !strings.HasPrefix(r.ans, "ok") {
+	if x.checkCrash(op, cmd, r) {
+		return r.ans
+	}
+	if !strings.HasPrefix(r.ans, "ok") {
+		// a message within protocol limits at a negotiated version has a frame: a refusal to write it is
+		// the first half of the round trip failing (e.g. a payload limit smaller than what the encoder emits)
+		if c14WF(m, pver) && c14Negotiated(pver) {
+			x.nOracle++
+			x.failure(op, "WriteMessage refuses a message within protocol limits at a negotiated protocol version", "a frame", c14Short(r.ans), c14Sig("write-refused", cmd))
+		}
 		return r.ans
 	}
 	x.nOracle++
@@ -1562,6 +1571,25 @@ func (g *c14Gen) generate() []c14Case {
 	for _, m := range bigs {
 		add(c14Op("wenc", 70013, m), "roundtrip:"+m.Command()+":max", true)
 		add(fmt.Sprintf("wwrite %d %d %s", 70013, uint32(net), c14Render(m)), "frame-roundtrip:"+m.Command()+":max", true)
+	}
+
+	// every list at, just under and just over its count limit at EVERY negotiated protocol version: the
+	// per-command payload limit depends on pver (time stamp of a net address from 31402 on), so a limit that
+	// is off at one threshold only shows with a near-maximal list at exactly that version
+	for _, pver := range c14Pvers {
+		for _, d := range []int{-1, 0, 1} {
+			am := &wire.MsgAddr{AddrList: []*wire.NetAddress{}}
+			for i := 0; i < wire.MaxAddrPerMsg+d; i++ {
+				am.AddrList = append(am.AddrList, g.na(pver, true))
+			}
+			lims := []wire.Message{am,
+				&wire.MsgGetHeaders{ProtocolVersion: g.u32(), BlockLocatorHashes: g.hashes(wire.MaxBlockLocatorsPerMsg + d), HashStop: g.hash()},
+				&wire.MsgGetBlocks{ProtocolVersion: g.u32(), BlockLocatorHashes: g.hashes(wire.MaxBlockLocatorsPerMsg + d), HashStop: g.hash()}}
+			for _, m := range lims {
+				add(c14Op("wenc", pver, m), "roundtrip:"+m.Command()+":limit", true)
+				add(fmt.Sprintf("wwrite %d %d %s", pver, uint32(net), c14Render(m)), "frame-roundtrip:"+m.Command()+":limit", true)
+			}
+		}
 	}
 
 	// valid frames of the commands outside the 16 kinds (and protoconf / authch)
